@@ -484,6 +484,11 @@ class Model:
         if bd.kind == "external":
             return CallSite(fi.qual, n, [], "external", name=bd.target)
         if bd.kind == "var":
+            # a module-level instance that is called:  SEARCH(point)  ==  type(SEARCH).__call__(SEARCH, point)
+            cq = self.var_class.get(bd.target)
+            m = self.find_method(cq, "__call__") if cq else None
+            if m:
+                return CallSite(fi.qual, n, [m], "method", name="__call__")
             return CallSite(fi.qual, n, [], "unresolved", name=name)
         return CallSite(fi.qual, n, [], "unresolved", name=name)
 
